@@ -19,7 +19,7 @@ MANIFEST = dict(
     technique="Lean 4 proof (recursive model of each loop = closed-form specification, by induction on the outcome list / condition sequence / count) + differential correspondence",
     ref='5/C15')
 
-ALL_FIELDS = ('trace', 'log', 'attempts', 'live', 'evals', 'prompt')
+ALL_FIELDS = ('trace', 'log', 'attempts', 'live', 'evals', 'prompt', 'decoy')
 
 
 def proj_resub(d):
@@ -165,6 +165,8 @@ def oracle_resub(case, gd):
         return 'values: the values of the attempts are not forwarded in order'
     if got_term != term:
         return f'terminal: got {got_term}, defined {term}'
+    if gd.get('decoy', '0') != '0':
+        return 'count: an upstream the operator value was applied to AFTERWARDS got subscribed by this pipeline (the sources of a pipeline are its own)'
     if gd.get('prompt') == '0':
         return 'cancellation: Retry did not stop as soon as the context was cancelled (it waited for the delay)'
     return None
@@ -193,7 +195,7 @@ def check(ctx):
         rule='kind resub: Retry, RetryWithConfig (MaxRetries 0..3(5), Delay 0/300us, ResetOnSuccess), RepeatWith (count 0..3(5)), While/DoWhile (plain and IWithContext; '
              'every truth sequence of length <= 3(4)), Catch, OnErrorResumeNextWith (0..3(5) fallbacks), Concat (0..3(5) sources) x every list of <= 3 (thorough: 4) attempt '
              'outcomes with <= 2 values ending in completion or error + seeded longer lists (<= 8 attempts, <= 3 values) x {sync, goroutine} attempts (+ the driven Wait-window schedule for lists <= 2) x downstream leaving '
-             'after 1..3 values x (Retry) context cancelled before subscribing / before each notification of each attempt / in each teardown; compared EQUAL: delivered trace '
+             'after 1..3 values x (a fifth of the synchronous cases; all in thorough) the operator value applied to a second, counting upstream after the pipeline was built (decoy: never subscribed, nothing else changes) x (Retry) context cancelled before subscribing / before each notification of each attempt / in each teardown; compared EQUAL: delivered trace '
              'with contexts, subscribe/teardown event log, number of subscriptions, max attempts alive, condition evaluations; oracle on the implementation alone: '
              'sequential log, closed-form count, forwarded values, terminal, promptness of a cancellation during a 3 s delay; non-trivial = at least two attempts or a delivered value',
         assumptions=['attempts that run on goroutines are scheduled with one P (GOMAXPROCS(1)) so that the run is deterministic (the terminal arrives while the operator is in Wait()); '
